@@ -6,6 +6,12 @@
 //!   {"w":"i8"|…|"u64","v":n}       write one integer item (u64 above i64::MAX travels as string)
 //!   {"r":"str","v":n}              hand-made marrow view holding n, read as String with `from_marrow`
 //!   {"r":"i32"|"i64","v":n}        the same, read as integer
+//!   {"cal":[y,m,d]}                calendar probe (Date32 / Date64 columns): chrono's TYPED calendar on the triple —
+//!                                  `from_ymd_opt` (valid?), `leap_year`, day difference to 1970-01-01, `succ_opt`,
+//!                                  `pred_opt` and the day difference of the successor — and the date and its
+//!                                  successor written as strings through the column (stored integers).  The driver
+//!                                  compares with the independent calendar `SaModel/Spec/Calendar.lean`
+//!                                  (`valid`, `isLeap`, `nextDay`, `prevDay`, `dayNumber`).
 //! Every string the crate consumed or produced is also given to two independent oracles
 //! (chrono typed values, jiff typed values); they report calendar-free typed values
 //! (days / (secs, nanos) / total nanoseconds), the driver does the unit arithmetic itself.
@@ -229,7 +235,48 @@ fn parse_i128(v: &Value) -> i128 {
     }
 }
 
+/// chrono's typed calendar on a (year, month, day) triple, and the date / its successor through the column
+fn cal_step(col: &Value, step: &Value) -> Value {
+    use chrono::{Datelike, NaiveDate};
+    let get = |i: usize| step["cal"].get(i).and_then(|v| v.as_i64()).unwrap_or(0);
+    let (y, m, d) = (get(0), get(1), get(2));
+    let r = std::panic::catch_unwind(|| {
+        let epoch = NaiveDate::from_ymd_opt(1970, 1, 1).unwrap();
+        let ymd = |x: NaiveDate| json!([x.year(), x.month(), x.day()]);
+        let days = |x: NaiveDate| x.signed_duration_since(epoch).num_days();
+        let y32 = i32::try_from(y).ok();
+        let date = match (y32, u32::try_from(m).ok(), u32::try_from(d).ok()) {
+            (Some(y), Some(m), Some(d)) => NaiveDate::from_ymd_opt(y, m, d),
+            _ => None,
+        };
+        let mut res = json!({"valid": date.is_some()});
+        res["leap"] = json!(y32.and_then(|y| NaiveDate::from_ymd_opt(y, 1, 1)).map(|x| x.leap_year()));
+        if let Some(dt) = date {
+            res["days"] = json!(days(dt));
+            let succ = dt.succ_opt();
+            let pred = dt.pred_opt();
+            res["succ"] = json!(succ.map(ymd));
+            res["succ_days"] = json!(succ.map(days));
+            res["pred"] = json!(pred.map(ymd));
+            res["pred_days"] = json!(pred.map(days));
+            let s = fmt_date(y, m, d, 0);
+            res["out"] = write_item(col, s.as_str()).0;
+            res["s"] = json!(s);
+            if let Some(sd) = succ {
+                let s = fmt_date(sd.year() as i64, sd.month() as i64, sd.day() as i64, 0);
+                res["out_succ"] = write_item(col, s.as_str()).0;
+                res["s_succ"] = json!(s);
+            }
+        }
+        res
+    });
+    r.unwrap_or(json!({"oracle_panic": true}))
+}
+
 fn exec_step(col: &Value, step: &Value) -> Value {
+    if step.get("cal").is_some() {
+        return cal_step(col, step);
+    }
     if let Some(kind) = step["w"].as_str() {
         let (out, arr) = match kind {
             "str" => write_item(col, step["v"].as_str().unwrap_or("")),
@@ -877,6 +924,46 @@ pub fn gen(ctx: &Ctx) -> Vec<Value> {
         let steps = gen_case(&mut r, &col, ctx.thorough());
         let c = out.len();
         out.push(json!({"id": format!("temporal-{c:06}"), "seed": sub, "col": col, "steps": steps}));
+    }
+    // ---- grid 5 (appended last: every earlier case keeps its id and seed): the calendar itself.  chrono's typed
+    // successor / predecessor / day difference / validity / leap rule against Spec/Calendar.lean, for every month
+    // start and month end, Feb 28 / 29 / 30 and nonsense triples, in years of every class mod 4 / 100 / 400, negative
+    // years, year 0, and the first / last years of chrono's range (and one year outside on either side)
+    {
+        let years: [i64; 44] = [
+            -262144, -262143, -262142, -10000, -9999, -2000, -401, -400, -399, -101, -100, -99, -5, -4, -3, -1, 0, 1, 4, 100, 400, 1582, 1600,
+            1700, 1800, 1900, 1968, 1969, 1970, 1971, 1972, 1999, 2000, 2001, 2023, 2024, 2100, 2400, 9999, 10000, 100000, 262141, 262142, 262143,
+        ];
+        let mut md: Vec<(i64, i64)> = Vec::new();
+        for m in 1..=12 {
+            md.extend([(m, 1), (m, 28), (m, 29), (m, 30), (m, 31), (m, 32)]);
+        }
+        md.extend([(2, 27), (0, 1), (13, 1), (1, 0), (-1, 1), (1, -1), (6, 15)]);
+        for (i, y) in years.iter().enumerate() {
+            let r = rng.fork();
+            let col = if i % 2 == 0 { json!({"t": "Date32"}) } else { json!({"t": "Date64"}) };
+            for chunk in md.chunks(40) {
+                push(&r, col.clone(), chunk.iter().map(|(m, d)| json!({"cal": [y, m, d]})).collect(), &mut out);
+            }
+        }
+        let n = if ctx.thorough() { 2000 } else { 60 };
+        for i in 0..n {
+            let mut r = rng.fork();
+            let col = if i % 2 == 0 { json!({"t": "Date32"}) } else { json!({"t": "Date64"}) };
+            let mut steps = Vec::new();
+            for _ in 0..10 {
+                let (y, m, d) = civil_from_days(random_day(&mut r));
+                // the day itself, the end of its month (by trying 28 … 31), and sometimes an invalid neighbour
+                let d = match r.below(6) {
+                    0 => 28 + r.below(5) as i64,
+                    1 => 1,
+                    _ => d,
+                };
+                let m = if r.chance(1, 20) { r.range(-1, 14) } else { m };
+                steps.push(json!({"cal": [y, m, d]}));
+            }
+            push(&r, col, steps, &mut out);
+        }
     }
     out
 }
